@@ -1,3 +1,11 @@
 package main
 
-func run7(f []string) (string, bool) { return "", false }
+func run7(f []string) (string, bool) {
+	switch f[0] {
+	case "rreq":
+		return doRest(f), true
+	case "rburst":
+		return doBurst(f), true
+	}
+	return run8(f)
+}
